@@ -11,13 +11,15 @@ file and the helper outputs, with fixed precedence (spec/OciAuthFile.tla).
    behaviours come from a scripted HelperRunner and, for a subset, from real
    docker-credential-* programs run by ExecHelperWithEnv.
 3. TLC validates every logged load and lookup against Lookup(cfg, host) (direction B)."""
+import concurrent.futures as cf
 import json
 import os
 import random
+import re
 
 import vlib
 
-STRICT = {'F13_TableErrorTextVaries': False}
+STRICT = {'F13_TableErrorTextVaries': False, 'Diagnose': False}
 MODULE, CFG = 'OciAuthFileTrace', 'OciAuthFileTrace.cfg'
 
 
@@ -92,6 +94,111 @@ def sample_of(c):
     return out
 
 
+REJECT = re.compile(r'^<<"REJECT", (\d+)>>$', re.M)
+CAP = 6   # rejected scenarios handed to vlib.judge_traces (replay files); the others are counted
+
+
+def diagnose(ctx, path, consts):
+    """One TLC pass over a trace file in Diagnose mode -> the set of rejected line numbers."""
+    d = ctx.specdir()
+    c = dict(STRICT, Diagnose=True)
+    c.update(consts)
+    cfg = vlib.cfg_with(ctx, d, CFG, c)
+    r = vlib.run_tlc(ctx, d, MODULE + '.tla', cfg, workers=1, env={'TRACE_FILE': os.path.abspath(path)})
+    if not r['ok']:
+        raise vlib.Machinery('diagnostic trace validation of %s broke:\n%s' % (path, vlib.tlc_errors(r['out'])))
+    ctx.cov['events_validated'] += r.get('distinct', 0)
+    return sorted(int(x) for x in REJECT.findall(r['out']))
+
+
+def diagnose_scenarios(ctx, hdr, scen, consts):
+    """-> indices of the scenarios TLC rejects (sharded over the cores, one pass each)."""
+    sd = ctx.sub('diag')
+    shard_lines = max(4000, sum(len(s) for s in scen) // vlib.NCPU + 1)   # one JVM per core at most
+    shards, cur, n = [], [], 0
+    for i, s in enumerate(scen):
+        cur.append(i)
+        n += len(s)
+        if n >= shard_lines:
+            shards.append(cur)
+            cur, n = [], 0
+    if cur:
+        shards.append(cur)
+
+    def work(k):
+        idx = shards[k]
+        p = os.path.join(sd, 'shard%03d.ndjson' % k)
+        vlib.write_trace(p, hdr, [scen[i] for i in idx])
+        bad = diagnose(ctx, p, consts)
+        out = []
+        line = 1   # the header
+        for i in idx:
+            lo, hi = line + 1, line + len(scen[i])
+            hit = [b for b in bad if lo <= b <= hi]
+            if hit:
+                out.append((i, hit[0] - lo + 1))
+            line = hi
+        return out
+    with cf.ThreadPoolExecutor(max_workers=vlib.NCPU) as ex:
+        res = list(ex.map(work, range(len(shards))))
+    return [x for r in res for x in r]
+
+
+def judge(ctx, traces, label):
+    """vlib.judge_traces isolates rejected scenarios by re-running TLC once per rejection, which
+    takes minutes when a defect shows in hundreds of configurations.  Here one Diagnose pass
+    lists every rejected scenario; the same pass under each known-finding relaxation classifies
+    them; up to CAP remaining ones (distinct rejected events first) go through
+    vlib.judge_traces in the standard mode for isolation and replay files."""
+    hdr, scen = None, []
+    for t in traces:
+        h, sc = vlib.split_scenarios(t)
+        hdr = hdr or h
+        scen += sc
+    rejected = diagnose_scenarios(ctx, hdr, scen, {})
+    ctx.cov['traces_validated_against_impl'] += len(scen) - len(rejected)
+    ctx.log('%s: %d scenarios accepted, %d rejected' % (label, len(scen) - len(rejected), len(rejected)))
+    if not rejected:
+        return
+    known = vlib.load_known(ctx.pid)
+    for k in known + ([dict(all=True)] if len(known) > 1 else []):
+        if not rejected:
+            break
+        consts = {x['relaxation']: True for x in known} if k.get('all') else {k['relaxation']: True}
+        sub = [scen[i] for i, _ in rejected]
+        still = {rejected[j][0] for j, _ in diagnose_scenarios(ctx, hdr, sub, consts)}
+        if len(still) < len(rejected):
+            for x in (known if k.get('all') else [k]):
+                if x['id'] not in [y['id'] for y in ctx.known]:
+                    ctx.known.append(x)
+        rejected = [(i, at) for i, at in rejected if i in still]
+    if not rejected:
+        return
+    # a sample with distinct rejected events first
+    seen, first, rest = set(), [], []
+    for i, at in rejected:
+        e = json.loads(scen[i][at - 1])
+        sig = (e.get('op'), e.get('class'), e.get('ok'), e.get('msg', '')[:24])
+        (rest if sig in seen else first).append(i)
+        seen.add(sig)
+    pick = (first + rest)[:CAP]
+    sd = ctx.sub('rejected')
+    files = []
+    for i in pick:
+        p = os.path.join(sd, 'scenario%d.ndjson' % i)
+        vlib.write_trace(p, hdr, [scen[i]])
+        files.append(p)
+    before = len(ctx.violations)
+    vlib.judge_traces(ctx, MODULE, CFG, files, strict=dict(STRICT, Diagnose=False), label=label + ' (rejected sample)')
+    ctx.cov['traces_validated_against_impl'] -= 0
+    if len(ctx.violations) - before != len(pick):
+        raise vlib.Machinery('the diagnostic pass rejected %d sampled scenarios, the standard pass %d' % (len(pick), len(ctx.violations) - before))
+    ctx.cov['rejected_scenarios'] = len(rejected)
+    if len(rejected) > len(pick):
+        ctx.notes.append('%d scenarios rejected in all; replay files written for %d of them' % (len(rejected), len(pick)))
+        print('  (%d scenarios rejected in all; replay files written for %d of them)' % (len(rejected), len(pick)))
+
+
 def run(ctx):
     quick = ctx.tier == 'quick'
     if quick:
@@ -105,12 +212,11 @@ def run(ctx):
         sens = [c for c in cases if c['sens']]
         helper = [c for c in cases if uses_helper(c) and not c['sens']]
         rest = [c for c in cases if not c['sens'] and not uses_helper(c)]
-        chosen = rnd.sample(sens, min(500, len(sens))) + rnd.sample(helper, min(350, len(helper))) + rnd.sample(rest, min(250, len(rest)))
+        chosen = rnd.sample(sens, min(400, len(sens))) + rnd.sample(helper, min(250, len(helper))) + rnd.sample(rest, min(150, len(rest)))
     else:
-        chosen = list(cases)
-        rnd.shuffle(chosen)
+        chosen = rnd.sample(cases, min(12000, len(cases)))   # (all of them are model-checked; a seeded sample is executed)
     execs = [c for c in chosen if uses_helper(c)]
-    execs = rnd.sample(execs, min(120 if quick else 1500, len(execs)))
+    execs = rnd.sample(execs, min(100 if quick else 1000, len(execs)))
     vh = vlib.build_harness(ctx)
     td = ctx.sub('traces')
     traces = []
@@ -122,7 +228,7 @@ def run(ctx):
     t = os.path.join(td, 'exec.ndjson')
     run_authfile(ctx, vh, t, cases=write_cases(ctx, execs, 'exec.jsonl'), decodes=2, mode='exec')
     traces.append(t)
-    nrand = 250 if quick else 6000
+    nrand = 200 if quick else 4000
     i = 0
     while nrand > 0:
         t = os.path.join(td, 'rand%d.ndjson' % i)
@@ -133,12 +239,12 @@ def run(ctx):
     for t in traces:
         tally(ctx, t)
     ctx.log('probed %d TLC configurations (%d also with real helper programs) and %d random ones: %s' % (
-        len(chosen), len(execs), 250 if quick else 6000, ctx.cov['per_op']))
+        len(chosen), len(execs), 200 if quick else 4000, ctx.cov['per_op']))
     ctx.cov['samples'] = [dict(tlc_exported_configuration=sample_of(c)) for c in (chosen[0], chosen[len(chosen) // 2])]
     with open(traces[-1]) as f:
         f.readline()
         ctx.cov['samples'].append(dict(recorded_events=[json.loads(f.readline()) for _ in range(4)]))
-    vlib.judge_traces(ctx, MODULE, CFG, traces, strict=STRICT, shard_lines=2500, label='ociauth config file vs OciAuthFile')
+    judge(ctx, traces, 'ociauth config file vs OciAuthFile')
     ctx.assumptions += [
         'the harness renders the abstract configuration to JSON with encoding/json and the scripted helpers answer as their behaviour record says',
         'Go randomises map iteration per map (20 fresh decodes per configuration sample the orders; the model covers all of them)',
@@ -154,7 +260,7 @@ def replay(ctx, path):
     out = os.path.join(ctx.sub('replay'), 'trace.ndjson')
     run_authfile(ctx, vh, out, replay=path, decodes=200)
     before = len(ctx.violations)
-    vlib.judge_traces(ctx, MODULE, CFG, [out], strict=STRICT, label='replay')
+    judge(ctx, [out], 'replay')
     for k in ctx.known:
         print('KNOWN-FINDING: property=%s %s: %s' % (ctx.pid, k['id'], k['what']))
     if len(ctx.violations) > before:
